@@ -17,22 +17,23 @@ var ErrHook = errors.New("injected backend failure")
 
 // ClientInfo is what the monitor knows about one broker.Client.
 type ClientInfo struct {
-	Client     *broker.Client
-	Name       string // name of the connection (FConn.Name)
-	ID         string
-	Clean      bool
-	SetupOK    bool
-	SetupSeq   int64 // event seq of the Setup return
-	Resumed    bool
-	Terminated int
-	TermSeq    int64
-	Session    broker.Session
-	Publishes  []*packet.Message // messages handed to Backend.Publish on behalf of this client (copies)
-	PubSeqs    []int64
-	PubErrs    []error // outcome of each of those calls (nil = the backend took the message)
-	Received   []packet.Generic // packets the broker reports as received (Log PacketReceived)
-	Disconnect bool             // broker logged a received DISCONNECT
-	Hooks      []string         // hook trace
+	Client      *broker.Client
+	Name        string // name of the connection (FConn.Name)
+	ID          string
+	Clean       bool
+	SetupOK     bool
+	SetupSeq    int64 // event seq of the Setup return
+	Resumed     bool
+	Terminated  int
+	TermEntered bool // Terminate has been entered (the inner call may be in progress)
+	TermSeq     int64
+	Session     broker.Session
+	Publishes   []*packet.Message // messages handed to Backend.Publish on behalf of this client (copies)
+	PubSeqs     []int64
+	PubErrs     []error          // outcome of each of those calls (nil = the backend took the message)
+	Received    []packet.Generic // packets the broker reports as received (Log PacketReceived)
+	Disconnect  bool             // broker logged a received DISCONNECT
+	Hooks       []string         // hook trace
 }
 
 // AckMode controls when the Ack closure of Publish is invoked.
@@ -426,6 +427,9 @@ func (m *MonBackend) Dequeue(c *broker.Client) (*packet.Message, broker.Ack, err
 }
 
 func (m *MonBackend) Terminate(c *broker.Client) error {
+	m.mu.Lock()
+	m.info(c).TermEntered = true
+	m.mu.Unlock()
 	b, a := m.enter("Terminate", c)
 	if m.SlowTerminate > 0 {
 		time.Sleep(m.SlowTerminate)
